@@ -473,6 +473,10 @@ func c03Stream(r *hx.Rand, tier string, n int, w *bufio.Writer) map[string]int {
 	}
 	stats := map[string]int{}
 	for h := 0; h < n; h++ {
+		if r.Chance(14) { // (round 4) a form_post history with write faults: c03fp.go
+			c03FPHistory(r, h, w, stats)
+			continue
+		}
 		router := hx.Pick(r, "provider", "legacy")
 		roSupported := r.Chance(40)
 		bed, err := opbed.New(opbed.Config{Router: router, S256: true, Post: true, PrivateKeyJWT: true, RequestObject: roSupported})
